@@ -17,6 +17,8 @@ def run(ctx):
         dscommon.run_family(ctx, "C03K1", fmt="netcdf", nontrivial_fn=lambda o: bool(o["opts"]["given"]))
         # every input of ONE Data object in turn: a selection (-obsrange above all) holds for every input, not only for the first one asked
         dscommon.run_family(ctx, "C03K1", fmt="text", fresh=False, nontrivial_fn=lambda o: bool(o["opts"]["given"]))
+        # text files that give the initialisation time as date + hour columns (runs at 06 UTC on several consecutive rows)
+        dscommon.run_family(ctx, "C03K1", fmt="text", variant={"time_format": "datehour"}, nontrivial_fn=lambda o: bool(o["opts"]["given"]), cli_lists=40)
         # a NetCDF file whose integer time variable has an unwritten (missing) last entry: a missing coordinate is no initialisation time
         dscommon.run_family(ctx, "C03K1", fmt="netcdf", variant={"nc_pad_time": True, "nc_missing": "fill"}, nontrivial_fn=lambda o: bool(o["opts"]["given"]))
     else:
@@ -24,5 +26,6 @@ def run(ctx):
         dscommon.run_family(ctx, "C03K2", fmt="netcdf", nontrivial_fn=lambda o: bool(o["opts"]["given"]), cli_lists=10000)
         dscommon.run_family(ctx, "C03ClimK2", fmt="text", nontrivial_fn=lambda o: bool(o["opts"]["given"]))
         dscommon.run_family(ctx, "C03K2", fmt="text", fresh=False, nontrivial_fn=lambda o: bool(o["opts"]["given"]))
+        dscommon.run_family(ctx, "C03K2", fmt="text", variant={"time_format": "datehour"}, nontrivial_fn=lambda o: bool(o["opts"]["given"]), cli_lists=2000)
         ctx.exhaustive = True
     par.clean_workdirs()
